@@ -9,7 +9,7 @@ p = os.path.join('/repo', f)
 src = open(p).read()
 if old not in src:
     print('pattern not found'); sys.exit(2)
-env = dict(os.environ, GOFLAGS='-mod=mod', GOPROXY='off')
+env = dict(os.environ, GOFLAGS='-mod=mod', GOPROXY='off', VERIF_SCRATCH_EVIDENCE='1')
 try:
     open(p, 'w').write(src.replace(old, new, 1))
     b = subprocess.run(['go', 'build', './...'], cwd='/repo', env=env, capture_output=True, text=True)
